@@ -132,16 +132,27 @@ def resample(image, target, mapping, shape, order=3, mode='constant',
         TV2IV = compose(image.coordmap.inverse(), TV2IW)
         if isinstance(TV2IV, AffineTransform): # still affine
             A, b = to_matvec(TV2IV.affine)
-            # interpolate in floating point, as ImageInterpolator does: ndimage
-            # returns the input's dtype, which would round the interpolated
-            # values (and cast cval) for integer-typed image data
-            idata = affine_transform(np.asarray(image.get_fdata(),
-                                                dtype=np.float64), A,
-                                     offset=b,
-                                     output_shape=shape,
-                                     order=order,
-                                     mode=mode,
-                                     cval=cval)
+            if A.shape[1] == A.shape[0] + 1:
+                # target grid with one more dimension than the image:
+                # ndimage.affine_transform would read the (n, n+1) matrix as
+                # an affine in homogeneous coordinates; sample the grid points
+                grid = ArrayCoordMap.from_shape(TV2IW, shape)
+                interp = ImageInterpolator(image, order=order, mode=mode,
+                                           cval=cval)
+                idata = interp.evaluate(grid.transposed_values)
+                del(interp)
+            else:
+                # interpolate in floating point, as ImageInterpolator does:
+                # ndimage returns the input's dtype, which would round the
+                # interpolated values (and cast cval) for integer-typed image
+                # data
+                idata = affine_transform(np.asarray(image.get_fdata(),
+                                                    dtype=np.float64), A,
+                                         offset=b,
+                                         output_shape=shape,
+                                         order=order,
+                                         mode=mode,
+                                         cval=cval)
         else: # not affine anymore
             interp = ImageInterpolator(image, order=order, mode=mode, cval=cval)
             grid = ArrayCoordMap.from_shape(TV2IV, shape)
